@@ -344,6 +344,43 @@ fn has_run(data: &[u8], byte: u8, n: usize) -> bool {
     false
 }
 
+/// `"op": "info_list"`: the object dictionary list of a conforming server with `"objects"` entries
+/// (indices 0x2000 ..), fetched with `sdo_info_object_description_list(All)`; `"value"` = the indices
+/// returned (little endian), `"od_indices"` = what the server holds, `"mailbox_log"`.
+fn info_list(case: &Value, out: &mut Obj) -> Result<(), Obj> {
+    let mut env = make(case)?;
+    let md = env.md;
+    let p = env.run(md.init_single_group::<16, 64>(simrun::now_ns));
+    let Some(group) = put_phase(out, "", p) else {
+        out.insert("stage".into(), json!("init"));
+        return Ok(());
+    };
+    let Ok(sd) = group.subdevice(md, 1) else {
+        out.insert("result".into(), json!("err:NotFound"));
+        return Ok(());
+    };
+    let n = get_u64(case, "objects", 10).min(2000) as u16;
+    {
+        let mb = env.seg.device_mut(1).mailbox_mut();
+        let coe = mb.coe_mut();
+        for k in 0..n {
+            coe.set(0x2000 + k, 0, vec![k as u8]);
+        }
+        mb.log.clear();
+    }
+    let p = env.run(async {
+        sd.sdo_info_object_description_list(ObjectDescriptionListQuery::All)
+            .await
+            .map(|v| v.map(|v| v.iter().flat_map(|x| x.to_le_bytes()).collect::<Vec<u8>>()).unwrap_or_default())
+    });
+    put_value(out, p);
+    let mut all: Vec<u16> = env.seg.device(1).mailbox.as_ref().and_then(|m| m.coe.as_ref()).map(|c| c.od.keys().map(|(i, _)| *i).collect()).unwrap_or_default();
+    all.dedup();
+    out.insert("od_indices".into(), json!(all));
+    mailbox_log(&env, out);
+    Ok(())
+}
+
 fn hostile(case: &Value, out: &mut Obj) -> Result<(), Obj> {
     let mut env = make(case)?;
     let md = env.md;
@@ -426,7 +463,8 @@ pub fn run(case: &Value, _seed: u64) -> Obj {
     let r = match get_str(case, "op", "") {
         "transfer" => transfer(case, &mut out),
         "hostile" => hostile(case, &mut out),
-        _ => Err(unsupported(case, "op must be transfer or hostile")),
+        "info_list" => info_list(case, &mut out),
+        _ => Err(unsupported(case, "op must be transfer, hostile or info_list")),
     };
     match r {
         Ok(()) => out,
